@@ -19,7 +19,8 @@ def oracle(ctx):
     quick = ctx["tier"] == "quick"
     n = (26 * len(ot.FAMILIES) * (40 if quick else 160)) * ctx["boost"]
     return cm.merge_results(cm.run_cases(ot.case, ctx["seed"], ID, n, {"size": 60 if quick else 250}),
-                            cm.run_cases(ot.case, ctx["seed"], ID + "vl", 10 if quick else 60, {"size": 60, "families": ["walk-verylongflat"]}))
+                            cm.run_cases(ot.case, ctx["seed"], ID + "vl", 10 if quick else 60, {"size": 60, "families": ["walk-verylongflat"]}),
+                            cm.run_cases(ot.case_hexital_chain, ctx["seed"], ID + "hc", 150 * ctx["boost"] if quick else 1500, {}))
 
 
 replay = ot.replay
